@@ -59,6 +59,7 @@ example : ∃ s, runActs init [.subscribe 1 .none 1 false true, .publish 7, .pub
   refine ⟨_, rfl, ?_⟩; decide
 ''',
 }
+MONSOUND = {"C06": "\n/-! ### the model passes the monitors the driver applies to the implementation\n\n`mstOf s` is the bookkeeping the driver has recorded from the script (`subAt` / `closedAt` are ghost fields of the model),\n`obsOf s` the model's own observation.  Side conditions = what the harness guarantees: published values are pairwise\ndistinct (the clauses compare values), and only the short timeout (1 tick) can have fired. -/\ntheorem C06_model_passes_monitor_deliveries (s : St) (h : Reach s) (hd : MonSound.distinctPubs s) :\n    Mon.deliveriesOK (MonSound.mstOf s) (Driver.Pub.obsOf s) = [] := MonSound.deliveriesOK_sound h hd\n\ntheorem C06_model_passes_monitor_ledger (s : St) (h : Reach s) (ht : MonSound.timeoutsOK s) :\n    Mon.ledgerOK (MonSound.mstOf s) (Driver.Pub.obsOf s) = [] := MonSound.ledgerOK_sound h ht\n", "C15": "\n/-! ### the model passes the monitors the driver applies to the implementation\n\n`ReachG`: Publish is issued only when no close is in progress, which holds at every quiescent point\n(`quiescent_closesDone`): between `close(done)` and `close(receiveCh)` the subscriber is still registered and a racing\nPublish still calls OnFiltered — the monitor's bookkeeping does not count that (witness in TV/Proofs/MonitorPub.lean). -/\ntheorem C15_model_passes_monitor_buffers (s : St) (h : Reach s) :\n    Mon.buffersOK (MonSound.mstOf s) (Driver.Pub.obsOf s) = [] := MonSound.buffersOK_sound h\n\ntheorem C15_model_passes_monitor_callbacks (s : St) (h : ReachG s) (hd : MonSound.distinctPubs s) (ht : MonSound.timeoutsOK s) :\n    Mon.callbacksOK (MonSound.mstOf s) (Driver.Pub.obsOf s) = [] := MonSound.callbacksOK_sound h hd ht\n"}
 if emit_spec:
     with open(f"{base}/Proofs/Publisher.lean", "w") as f:
         f.write("import TV.Model.Publisher\n/-! Publication LTS — proof obligations. Each `theorem` below is re-exported verbatim by TV/Properties/C06, C10, C15. -/\nnamespace TV.Publisher\nnamespace Proofs\n\n")
@@ -68,10 +69,13 @@ if emit_spec:
 for prop in titles:
     with open(f"{base}/Properties/{prop}.lean","w") as f:
         f.write("import TV.Proofs.Publisher\n")
+        if prop in MONSOUND:
+            f.write("import TV.Proofs.MonitorPub\n")
         f.write(f"/-!\n# {prop} — {titles[prop]}\n\nStatements are over the labelled transition system of TV/Model/Publisher.lean: any number of\npublishers, subscribers (any buffer size, filter, timeout, callbacks), messages and closers, every\ninterleaving (`Reach`); closes are injected at every position because `Reach` quantifies over all\nreachable states.\n-/\nnamespace TV.{prop}\nopen TV.Publisher\n\n")
         for p2, name, doc, stmt in T:
             if p2 != prop: continue
             f.write(f"/-- {doc} -/\ntheorem {name} :\n    {stmt} := Proofs.{name}\n\n")
         f.write(extra.get(prop,""))
+        f.write(MONSOUND.get(prop,""))
         f.write(f"\nend TV.{prop}\n")
 print(len(T))
